@@ -125,7 +125,7 @@ def containsSome (self other : Assets) : Bool :=
       | some s => decide (s > 0)
 
 def isEmptyOrNegative (a : Assets) : Bool := a.all fun kv => !(kv.2 > 0)
-def isOnlyNaked (a : Assets) : Bool := a.all fun kv => kv.1.isNaked
+def isOnlyNaked (a : Assets) : Bool := a.all fun kv => kv.2 == 0 || kv.1.isNaked
 
 /-- `PartialEq for CanonicalAssets` (after the `fix:` commit for C15): two values
 are equal when every class has the same amount on both sides, an absent class
